@@ -74,11 +74,13 @@ package gen
 //@ func (*ParquetWriter).Close
 //@   verify[C13]
 //@   requires writerOK(p)
+//@   free-requires live(par1)
 //@   modifies heap("sch.ColumnMetaData"), heap("sch.SchemaElement"), wfault
 //@   ensures[C09] err == nil ==> (wfault ==> old(wfault))
 
 //@ func begin
 //@   requires p != nil && external(p.w)
+//@   free-requires live(par1)
 //@   modifies wfault
 //@   ensures[C09] err == nil ==> (wfault ==> old(wfault))
 
